@@ -177,7 +177,7 @@ def h_errors(E, case):
 
 
 DUMMY_NAMES = {'default-function': 'sin', 'another-default-function': 're', 'user-function': 'myf', 'constant': 'pi', 'user-constant': 'kk', 'variable': 'x',
-               'number-like': '2n', 'fresh': 'q', 'primed': "n'", 'underscored': 'n_1', 'braces (not a plain variable name)': 'n_{1}'}
+               'number-like': '2n', 'fresh': 'q', 'primed': "n'", 'underscored': 'n_1', 'upper': 'K', 'camel': 'nMax', 'upper-underscore': 'M_2', 'long': 'index', 'braces (not a plain variable name)': 'n_{1}'}
 RESTRICTIONS = {'none': {}, 'blacklist': dict(blacklist=['sin', 'cos', 're']), 'whitelist': dict(whitelist=['cos']), 'whitelist-none': dict(whitelist=[None])}
 
 
@@ -187,7 +187,7 @@ def h_dummy_names(E, name_kind, restriction):
     from mitxgraders.exceptions import MITxError, StudentFacingError, ConfigError
     g, SX, SD = _grader(E, user_functions={'myf': lambda t: t}, user_constants={'kk': 3.0}, **RESTRICTIONS[restriction])
     v = DUMMY_NAMES[name_kind]
-    free = name_kind in ('fresh', 'primed', 'underscored')
+    free = name_kind in ('fresh', 'primed', 'underscored', 'upper', 'camel', 'upper-underscore', 'long')
     try:
         r = g(None, ['1', '4', 'x*%s+%s^2' % (v, v), v])
     except MITxError as e:
